@@ -66,6 +66,28 @@ def run(ctx, b, broken):
     gen_bad = []
     ctx.notes["rule"] = "accepted programs (generator programs, the repository corpus after cpp, accepted token mutants) x both generator configurations; non-trivial = program with >= 1 nested expression and >= 1 non-trivial declarator; distinct by text"
     replay_known(ctx, roundtrip)
+    # user subclasses of CGenerator that override visit_* methods run first, on a program that has every kind of node:
+    # what the plain CGenerator prints afterwards (all the round trips below) must not depend on that
+    from pycparser import c_generator as _cg, c_ast as _ca
+    over = {}
+    for cname in [c for c in dir(_ca) if isinstance(getattr(_ca, c), type) and issubclass(getattr(_ca, c), _ca.Node) and c != "Node"]:
+        over["visit_" + cname] = (lambda nm: (lambda self, n: "/*" + nm + "*/"))(cname)
+    SubA = type("SubA", (_cg.CGenerator,), {k: v for i, (k, v) in enumerate(sorted(over.items())) if i % 2 == 0})
+    SubB = type("SubB", (_cg.CGenerator,), {k: v for i, (k, v) in enumerate(sorted(over.items())) if i % 2 == 1})
+    for text, _v in ZOO[:40]:
+        try:
+            a0 = parse_impl_ast(text)
+        except Exception:
+            continue
+        for G in (SubA, SubB):
+            try:
+                G().visit(a0)
+                for e in a0.ext:
+                    G().visit(e)
+                    for _cn, ch in e.children():
+                        G().visit(ch)
+            except Exception:
+                pass
     import props.C06 as C06z
     for text, _valid in ZOO:
         for variant in [text] + [" ".join(C06z.mutate(text.split(" "), ctx.rng)) for _ in range(6)]:
